@@ -24,9 +24,13 @@ def observe(b, obj, n, rng, bounds):
         with quiet():
             try:
                 sig = D.hyperedge_signature_vector(obj, max_hyperedge_size=mx)
-                c["sig"] = [int(v) for v in sig]
                 if any(float(v) != int(v) for v in sig):
                     c["float_exact"] = False
+                if mx <= 12:
+                    c["sig"] = [int(v) for v in sig]
+                else:            # large bound: non-zero cells only (1-based flat index, value) + the length
+                    c["siglen"] = int(len(sig))
+                    c["sigsparse"] = [[i + 1, int(v)] for i, v in enumerate(sig) if v != 0]
             except Exception:
                 pass
             for name, fn in (("exact", D.exact_reciprocity), ("strong", D.strong_reciprocity), ("weak", D.weak_reciprocity)):
@@ -140,12 +144,65 @@ def run(tier, seed):
         for c in observe(b, obj, n, rng, rng.sample(range(2, 8), 3 if tier == "quick" else 6)):
             cases.append(c)
             descr.append({"n": n, "keys": kk, "labels": b.labels, "mx": c["mx"], "weighted": wtd})
+    # (iii) large bounds (the signature is indexed by (source size, target size) in a (bound-1)^2 vector) and
+    #       hyperedges with many sources; only the signature is observed there
+    for i in range(12 if tier == "quick" else 120):
+        n = rng.choice([7, 8, 9])
+        kk = []
+        for _ in range(rng.randint(2, 6)):
+            a = rng.randint(1, n - 1)
+            nodes = rng.sample(range(1, n + 1), rng.randint(a + 1, n))
+            kk.append((tuple(sorted(nodes[:a])), tuple(sorted(nodes[a:]))))
+        kk = list(dict.fromkeys(kk))
+        b = Binding("dir", LABEL_FAMILIES[fams[i % 4]](n), rng)
+        obj = build(b, kk, rng)
+        import hypergraphx.measures.directed as D_
+        for mx in rng.sample([13, 40, 65, 70, 90, 130, 200, 257, 300], 2):
+            c = {"st": b.state(obj), "mx": mx, "float_exact": True}
+            try:
+                with quiet():
+                    sig = D_.hyperedge_signature_vector(obj, max_hyperedge_size=mx)
+                c["siglen"] = int(len(sig))
+                c["sigsparse"] = [[j + 1, int(v)] for j, v in enumerate(sig) if v != 0]
+                if any(float(v) != int(v) for v in sig):
+                    c["float_exact"] = False
+            except Exception as ex:
+                c["siglen"] = -1
+                c["sigsparse"] = []
+            cases.append(c)
+            descr.append({"n": n, "keys": kk, "labels": b.labels, "mx": mx})
+    # (iv) several hyperedges sharing one target set (and some sharing one source set), with reverse links from
+    #      parts of the targets: insertion order varies
+    for i in range(40 if tier == "quick" else 800):
+        n = rng.choice([4, 5, 6])
+        nodes = list(range(1, n + 1))
+        rng.shuffle(nodes)
+        T = tuple(sorted(nodes[:rng.randint(2, min(3, n - 2))]))
+        rest = [x for x in range(1, n + 1) if x not in T]
+        kk = []
+        for sset in rng.sample(rest, rng.randint(2, len(rest))):
+            kk.append(((sset,), T))
+        for t in T:
+            if rng.random() < 0.7:
+                kk.append(((t,), (rng.choice(rest),)))
+        if rng.random() < 0.5 and len(rest) >= 2:
+            kk.append((tuple(sorted(rng.sample(rest, 2))), T))
+        kk = list(dict.fromkeys(kk))
+        rng.shuffle(kk)
+        b = Binding("dir", LABEL_FAMILIES[fams[i % 4]](n), rng)
+        obj = b.new(False)
+        with quiet():
+            for S_, T_ in kk:                      # insertion order as listed (not reshuffled)
+                obj.add_edge((b._tuple(S_), b._tuple(T_)))
+        for c in observe(b, obj, n, rng, rng.sample(range(2, 7), 2)):
+            cases.append(c)
+            descr.append({"n": n, "keys": kk, "labels": b.labels, "mx": c["mx"]})
     v = K.run_cases("Trace_C12", cases, {"Kind": "dir"}, procs=12)
     for idx, failed in v["rejects"]:
         d = descr[idx]
         res.reject({"clauses": failed, "bound": d["mx"] if any("recipro" in f or "signature" in f for f in failed) else None},
                    "directed measure(s) %s disagree with Directed.tla on %d-node %shypergraph %s (bound %d, labels %s)"
-                   % (",".join(failed), d["n"], "weighted " if d["weighted"] else "", d["keys"], d["mx"], d["labels"]),
+                   % (",".join(failed), d["n"], "weighted " if d.get("weighted") else "", d["keys"], d["mx"], d["labels"]),
                    {"case": d, "logged": {k: v_ for k, v_ in cases[idx].items() if k != "st"}, "state": cases[idx]["st"]})
     inexact = sum(1 for c in cases if not c["float_exact"])
     for i, c in enumerate(cases):
@@ -155,10 +212,10 @@ def run(tier, seed):
             break
     res.cov(traces_validated_against_impl=len(cases), validator_states=v["states"],
             distinct_hypergraphs=len({(d["n"], tuple(d["keys"])) for d in descr}),
-            weighted_cases=sum(1 for d in descr if d["weighted"]),
-            weighted_cases_with_a_weight_other_than_1=sum(1 for c, d in zip(cases, descr) if d["weighted"]
+            weighted_cases=sum(1 for d in descr if d.get("weighted")),
+            weighted_cases_with_a_weight_other_than_1=sum(1 for c, d in zip(cases, descr) if d.get("weighted")
                                                           and any(e["w"] != 1 for e in c["st"]["edges"])),
-            weighted_cases_with_signature_returned=sum(1 for c, d in zip(cases, descr) if d["weighted"] and "sig" in c),
+            weighted_cases_with_signature_returned=sum(1 for c, d in zip(cases, descr) if d.get("weighted") and "sig" in c),
             exhaustive=(tier == "thorough"))
     res.sample({"hyperedges": descr[-1]["keys"], "labels": descr[-1]["labels"], "bound": descr[-1]["mx"],
                 "logged": {k: v_ for k, v_ in cases[-1].items() if k not in ("st", "deg", "seqs")}})
